@@ -107,7 +107,7 @@ def srun (step : Share → SOp → Share) (s : Share) (ops : List SOp) : Share :
 def initShare : Share := { blocks := [], slots := [none, none, none] }
 
 /-- number of live objects pointing to block b -/
-def sharers (s : Share) (b : Nat) : Nat := (s.slots.filter (· == some b)).length
+def sharers (s : Share) (b : Nat) : Nat := s.slots.count (some b)
 
 /-- the invariant: every counter equals the number of sharers, a block is freed exactly when nobody shares it,
     every live object points to an existing block -/
@@ -121,5 +121,22 @@ def legal (s : Share) : SOp → Prop
   | .copy k j => k < s.slots.length ∧ s.slot k = none ∧ (s.slot j).isSome
   | .assign k j => k < s.slots.length ∧ (s.slot k).isSome ∧ (s.slot j).isSome
   | .destroy k => k < s.slots.length ∧ (s.slot k).isSome
+
+instance (s : Share) (op : SOp) : Decidable (legal s op) := by
+  cases op <;> unfold legal <;> infer_instance
+
+/-- a history every operation of which is legal in the state it is executed in -/
+def legalRun (s : Share) : List SOp → Prop
+  | [] => True
+  | op :: rest => legal s op ∧ legalRun (sstep s op) rest
+
+instance legalRunDecidable : (s : Share) → (ops : List SOp) → Decidable (legalRun s ops)
+  | _, [] => isTrue trivial
+  | s, op :: rest =>
+    have := legalRunDecidable (sstep s op) rest
+    inferInstanceAs (Decidable (legal s op ∧ legalRun (sstep s op) rest))
+
+/-- the consequence of the invariant the C++ relies on: a live object never points to a freed block -/
+def noDangling (s : Share) : Prop := ∀ k b, s.slot k = some b → (s.block b).freed = false
 
 end Givaro.Model.Domain
